@@ -150,7 +150,9 @@ def thread_repr(rec, known=False):
 
 
 def run(spec, ctx):
-    import zope.testrunner.threadsupport as TS
+    import sys
+    core.prepare()
+    TS = sys.modules['zope.testrunner.threadsupport']
     src = W.materialise(spec['world'], ctx.scratch)
     m = W.Model(spec['world'])
     rng = random.Random(spec['seed'] * 7919 + 13)
